@@ -53,6 +53,10 @@ pub enum Point {
 
     /// In-thread worker construction begins / service factories are about to run.
     WorkerStarting(usize),
+
+    /// The server has told the accept thread to stop and is about to tell the workers (the accept
+    /// thread and the workers may already run in between).
+    StopSignalled,
 }
 
 /// A worker as a plain future (the real `ServerWorker`), to be polled by the simulator.
